@@ -1676,7 +1676,8 @@ class Module(ABC):
 
     def record(self, state: str = "v", verbose=True):
         comp_states, edge_states = self._get_state_names()
-        if state not in comp_states + edge_states:
+        # `i` is the key of the stimuli, it is not a state of the simulation.
+        if state not in comp_states + edge_states or state == "i":
             raise KeyError(f"{state} is not a recognized state in this module.")
         if state in comp_states:
             in_view = self._nodes_in_view
